@@ -1091,6 +1091,28 @@ func (t *trzszTransfer) doCreateDirectory(path string, perm *uint32) error {
 	return nil
 }
 
+func (t *trzszTransfer) claimNewDirectory(path, name, localName string, perm *uint32) (string, error) {
+	fileMode := fs.FileMode(0755)
+	if perm != nil {
+		fileMode = fs.FileMode(*perm) | 0700
+	}
+	for i := 0; i < 1000; i++ {
+		fullPath := filepath.Join(path, localName)
+		err := os.Mkdir(fullPath, fileMode)
+		if err == nil {
+			t.addCreatedFiles(fullPath)
+			return localName, nil
+		}
+		if !os.IsExist(err) {
+			return "", err
+		}
+		if localName, err = getNewName(path, name); err != nil {
+			return "", err
+		}
+	}
+	return "", simpleTrzszError("Fail to assign new file name to %s", name)
+}
+
 func (t *trzszTransfer) createFile(path, fileName string, truncate bool, perm *uint32) (fileWriter, string, error) {
 	var localName string
 	if t.transferConfig.Overwrite {
@@ -1121,6 +1143,14 @@ func (t *trzszTransfer) createDirOrFile(path string, srcFile *sourceFile, trunca
 			localName, err = getNewName(path, srcFile.RelPath[0])
 			if err != nil {
 				return nil, "", err
+			}
+			if srcFile.IsDir || len(srcFile.RelPath) > 1 {
+				// claim the fresh name of a directory at once: another transfer into the same folder may be
+				// choosing it at this very moment, and a directory, unlike a file, is not created exclusively later
+				localName, err = t.claimNewDirectory(path, srcFile.RelPath[0], localName, srcFile.Perm)
+				if err != nil {
+					return nil, "", err
+				}
 			}
 			t.fileNameMap[srcFile.PathID] = localName
 		}
